@@ -40,7 +40,7 @@ def lookupKey (t : List Conn) (remote : Nat) (loc : Local) : Option Conn :=
 
 inductive Ev
   | dgram (d : Dgram)                 -- a datagram arrives
-  | newConn (remote : Nat)            -- server-initiated connection (keyed by the wildcard local address)
+  | newConn (remote : Nat) (listener : Local)   -- server-initiated connection: `NewConn(addr)` keys by the LISTENER's local address (wildcard-bound: any; bound to a concrete address: that address), looked up like a datagram's
   | closePeer (remote : Nat) (loc : Local)   -- the connection of that peer is closed (inactivity, application, peer error)
   deriving Repr, DecidableEq
 
@@ -57,10 +57,10 @@ def step (s : State) : Ev → State
       let k : Key := (d.remote, normLocal d.loc)
       if d.wellFormed then { s with conns := s.conns ++ [{ key := k, seen := [d.tag] }] }
       else { s with closed := s.closed ++ [{ key := k }] }
-  | .newConn remote =>
-    match find s.conns (remote, none) with
+  | .newConn remote lis =>
+    match lookupKey s.conns remote lis with
     | some _ => s
-    | none => { s with conns := s.conns ++ [{ key := (remote, none) }] }
+    | none => { s with conns := s.conns ++ [{ key := (remote, normLocal lis) }] }
   | .closePeer remote loc =>
     match lookupKey s.conns remote loc with
     | some c => { conns := s.conns.filter (fun x => x.key != c.key), closed := s.closed ++ [c] }
@@ -76,7 +76,7 @@ def view (s : State) (remote : Nat) : List Conn × List Conn := (part remote s.c
 
 def evRemote : Ev → Nat
   | .dgram d => d.remote
-  | .newConn r => r
+  | .newConn r _ => r
   | .closePeer r _ => r
 
 /-! ### discovery routing (`discover.go` + the `cfg.Handler` wrapper of `getOrCreateConn`) -/
